@@ -372,7 +372,7 @@ func (m cModel) conflictSelf(from, to, typ int) bool {
 	return false
 }
 
-const concurrentRule = "One case = a generated script of 2..10 rounds for 2..5 lock-owners of different clients that share ONE opened file of a real nfsv4.OpenedFilesPool (Open per owner; 0/8/64/300 never-conflicting locks of a further owner in front of the contended bytes make the table long). In a round every owner makes one request - lock rounds: LOCK read/write of a range of the 12 contended bytes (70% meeting at one drawn byte), LOCKT, or nothing; unlock rounds: LOCKU or nothing - and the requests of a round are issued AT THE SAME TIME by one goroutine per owner released from a spinning barrier (real parallelism, race detector on in the driver); between rounds everything is joined. Each script is executed several times on fresh pools (quick 4, thorough 12 executions), since the schedule is the Go runtime's. ORACLE (validity over all schedules, per-byte reference table): (1) after every round no byte is held exclusively by one owner and at all by another - the table after the round is the table before it with every granted request applied to its own owner, which does not depend on the order; (2) a DENIED LOCK/LOCKT is explained by a conflicting lock that another owner held before the round or holds after it, and the lock it names belongs to another owner, overlaps, conflicts, and is held like that before or after the round; a LOCKT finding no conflict although one owner conflicted throughout is wrong; no other error status; (3) the table is read back sequentially with LOCKT (every contended byte, both types, an owner that holds nothing) and must equal the reference table; at the end the filler locks are still there and after UnlockAll+Close of every open the pool is empty. NON-TRIVIAL: a round contained two LOCK requests of different owners that cannot both be granted. Distinct by script hash."
+const concurrentRule = "One case = a generated script of 2..10 rounds for 2..5 lock-owners of different clients that share ONE opened file of a real nfsv4.OpenedFilesPool (Open per owner; 0/8/64/300 never-conflicting locks of a further owner in front of the contended bytes make the table long). In a round every owner makes one request - lock rounds: LOCK read/write of a range of the 12 contended bytes (70% meeting at one drawn byte), LOCKT, or nothing; unlock rounds: LOCKU or nothing - and the requests of a round are issued AT THE SAME TIME by one goroutine per owner released from a spinning barrier (real parallelism, race detector on in the driver); between rounds everything is joined. Each script is executed several times on fresh pools (quick 4, thorough 8 executions), since the schedule is the Go runtime's. ORACLE (validity over all schedules, per-byte reference table): (1) after every round no byte is held exclusively by one owner and at all by another - the table after the round is the table before it with every granted request applied to its own owner, which does not depend on the order; (2) a DENIED LOCK/LOCKT is explained by a conflicting lock that another owner held before the round or holds after it, and the lock it names belongs to another owner, overlaps, conflicts, and is held like that before or after the round; a LOCKT finding no conflict although one owner conflicted throughout is wrong; no other error status; (3) the table is read back sequentially with LOCKT (every contended byte, both types, an owner that holds nothing) and must equal the reference table; at the end the filler locks are still there and after UnlockAll+Close of every open the pool is empty. NON-TRIVIAL: a round contained two LOCK requests of different owners that cannot both be granted. Distinct by script hash."
 
 func thoroughTier() bool { return os.Getenv("VERIF_TIER") == "thorough" }
 
@@ -380,7 +380,7 @@ func TestC20OpenedFileConcurrentOwners(t *testing.T) {
 	rec := simkit.NewRecorder(t, "C20", "opened_file_concurrent_owners", concurrentRule)
 	maxRounds, reps := 6, 4
 	if thoroughTier() {
-		maxRounds, reps = 10, 12
+		maxRounds, reps = 10, 8
 	}
 	rapid.Check(t, func(rt *rapid.T) {
 		s := drawCScript(rt, maxRounds)
